@@ -12,7 +12,8 @@ pipemap.install()      # shape-map runs (cfg["smap"]) go through Model.RunMap / 
 
 class Spec(pipeprops.PropSpec):
     pid = "C01"
-    theorems = "C01_figures_from_profile, C01_profile_counts_exact (see Props/C01.v)"
+    theorems = "see Props/C01.v (names are read from the file at run time)"
+    uses_bin64 = True
     projection = staticmethod(pipeprops.proj_figures)
     projection_name = "all figures: per shape the header count; per constraint and per comment (direction, predicate, kind, cardinality, count, ratio), order included"
     rule = ("random small-scope graphs (1-4 classes, 2-8 nodes incl. blank nodes, multi-typed nodes, 1-4 properties, "
